@@ -65,16 +65,33 @@ Theorem C31_payout_is_owed : forall (h : list op) p th sg dl a x d,
 Proof. exact payout_is_owed. Qed.
 Print Assumptions C31_payout_is_owed.
 
-(** PARTIAL (process lifetime): from start-up (Init with any chain answers) through any history
-    WITHOUT a further restart, with positive payment thresholds: every cheque handed to a peer is
-    strictly above the last cheque DELIVERED to that peer (delivered payouts strictly increase; a
-    failed delivery may be retried with the same payout).  Histories with a later restart are
-    excluded here (what a restart restores is C33's subject). *)
-Theorem C31_payout_increasing_partial : forall (cv0 : chainview) (h : list op),
-  no_restart h = true -> Forall threshold_pos h ->
-  emits_above (fun _ => None) (fst (run HM false (init_state HM) (ORestart cv0 :: h))).
-Proof. exact payout_increasing. Qed.
-Print Assumptions C31_payout_increasing_partial.
+(** over ALL histories — restarts and 24 h refreshes included — with positive payment thresholds, in which
+    every restart could read the chain's peer lists (a node whose Init fails does not start: pkg/node/chain.go):
+    every cheque handed to a peer is strictly above the last cheque DELIVERED to that peer (delivered payouts
+    strictly increase; a failed delivery may be retried with the same payout).  Init restores the sent-cheque
+    total as max(chain value, last sent cheque) for every address of the peer list, which contains every address
+    with a last sent cheque. *)
+Theorem C31_payout_increasing : forall (h : list op),
+  Forall restart_lists_ok h -> Forall threshold_pos h ->
+  emits_above (fun _ => None) (fst (run HM false (init_state HM) h)).
+Proof. exact payout_increasing_all. Qed.
+Print Assumptions C31_payout_increasing.
+
+(** the cash-out receipt path: the records of other peers keep their cashed value; when the receipt is
+    successful and the chain answers, the cashed record of the peer is EXACTLY the chain's value (the
+    sent-cheque total the handler persists beforehand is only the fallback for a failing chain call); without
+    a successful receipt nothing changes *)
+Theorem C31_cashout_cashed_record : forall (h : list op) p ck rc bs tr bp,
+  let s := hreach h in let s' := snd (step HM false s (OCashout p ck rc bs tr bp)) in
+  (forall a' t, get p (m_pb s) <> Some a' -> get a' (recs s) = Some t ->
+     exists t', get a' (recs s') = Some t' /\ nread (hp s') (f_rchain t') = nread (hp s) (f_rchain t)) /\
+  (forall a b x, get p (m_pb s) = Some a -> ck = true -> rc = Some 1 -> bs = Some b -> snd tr = Some x ->
+     exists t', get a (recs s') = Some t' /\ nread (hp s') (f_rchain t') = x) /\
+  (ck = false \/ rc <> Some 1 \/ bs = None ->
+     forall a t, get a (recs s) = Some t ->
+       exists t', get a (recs s') = Some t' /\ nread (hp s') (f_rchain t') = nread (hp s) (f_rchain t)).
+Proof. exact cashout_cashed_record. Qed.
+Print Assumptions C31_cashout_cashed_record.
 
 Definition witness : list op :=
   [ORestart {| cv_lists := Some [1]; cv_trans := []; cv_bal := Some 1000%Z; cv_paid := Some 0%Z |};
@@ -94,13 +111,27 @@ Print Assumptions C31_inplace_refuted.
 
 (** non-vacuity: on the witness history the repaired model shares one location between three
     fields, emits one cheque of 100, keeps cashed = 0 and reports 900; the hypotheses of the
-    partial theorem hold for it *)
+    payout theorem hold for it *)
 Example C31_witness_repaired :
   let '(outs, s) := run HM false (init_state HM) witness in
   map o_emit outs = [None; None; None; Some (1, 100%Z, true)] /\
   (exists t, get 1 (recs s) = Some t /\ f_rchain t = f_tchain t + 1 /\ nread (hp s) (f_rchain t) = 0%Z /\ nread (hp s) (f_rcheque t) = 100%Z) /\
-  available_balance HM s = 900%Z /\ no_restart (tl witness) = true /\ Forall threshold_pos (tl witness).
+  available_balance HM s = 900%Z /\ Forall restart_lists_ok witness /\ Forall threshold_pos witness.
 Proof.
-  vm_compute. split; [reflexivity|]. split; [eexists; repeat split; reflexivity|]. split; [reflexivity|]. split; [reflexivity|].
-  repeat constructor.
+  vm_compute. split; [reflexivity|]. split; [eexists; repeat split; reflexivity|]. split; [reflexivity|].
+  split; repeat constructor; discriminate.
 Qed.
+
+(** why [restart_lists_ok] is a hypothesis: if Init fails on the peer lists and the process nevertheless went
+    on (the node does not: it exits), records and address book stay empty; a re-registered peer gets a zero
+    record and (once a cash-out receipt has brought a chain balance) the next cheque (10) is below the one delivered before the restart (100) *)
+Example C31_failed_init_continued :
+  let cv := {| cv_lists := Some [1]; cv_trans := []; cv_bal := Some 1000%Z; cv_paid := Some 0%Z |} in
+  let bad := {| cv_lists := None; cv_trans := []; cv_bal := Some 1000%Z; cv_paid := Some 0%Z |} in
+  map o_emit (fst (run HM false (init_state HM)
+     [ORestart cv; OHandshake 10 1 (Some 5%Z); OTraffic 10 100%Z; OPay 10 50%Z true true;
+      ORestart bad; OHandshake 10 1 (Some 5%Z);
+      OCashout 10 true (Some 1) (Some 1000%Z) (Some 0%Z, Some 0%Z) (Some 5%Z);   (* brings a chain balance *)
+      OTraffic 10 10%Z; OPay 10 5%Z true true]))
+  = [None; None; None; Some (1, 100%Z, true); None; None; None; None; Some (1, 10%Z, true)].
+Proof. vm_compute. reflexivity. Qed.
